@@ -63,6 +63,9 @@ type Run struct {
 	outcomes   map[string]int
 	deadline   time.Time
 	ReplayPath string
+	// replaySite: checks without a case-level replay re-run their (deterministic) enumeration under --replay
+	// and report only the recorded site
+	replaySite string
 
 	job         string
 	autoSamples []any
@@ -90,6 +93,16 @@ func New(id, level string) *Run {
 		r.deadline = r.start.Add(*budget)
 	}
 	r.loadKnown()
+	if r.ReplayPath != "" {
+		if b, err := os.ReadFile(r.ReplayPath); err == nil {
+			var w struct {
+				SiteKey string `json:"site_key"`
+			}
+			if json.Unmarshal(b, &w) == nil {
+				r.replaySite = w.SiteKey
+			}
+		}
+	}
 	return r
 }
 
@@ -203,6 +216,9 @@ func (r *Run) Violation(siteKey, what string, replay any) {
 		r.workerViolation(siteKey, what, replay)
 		return
 	}
+	if r.replaySite != "" && siteKey != r.replaySite {
+		return
+	}
 	if k, ok := r.known[siteKey]; ok {
 		if r.knownHit[siteKey] == 0 {
 			fmt.Printf("KNOWN-FINDING: property=%s %s [site=%s]\n", r.ID, k.What, siteKey)
@@ -308,6 +324,9 @@ func (r *Run) Finish() {
 	}
 	fmt.Printf("%s %s: evaluations=%d distinct_nontrivial=%d violations=%d known_sites_hit=%d exhaustive=%v wall=%.1fs\n",
 		r.ID, r.Tier, r.evals, len(r.nontrivial), nviol, len(r.knownHit), r.exhaustive, time.Since(r.start).Seconds())
+	if r.replaySite != "" {
+		fmt.Printf("replay of site %q: reproduced=%v (the whole deterministic enumeration was re-run, other sites ignored)\n", r.replaySite, nviol > 0)
+	}
 	if nviol > 0 {
 		os.Exit(1)
 	}
@@ -316,6 +335,7 @@ func (r *Run) Finish() {
 
 // LoadReplay reads the "case" member of a replay file into v.
 func (r *Run) LoadReplay(v any) {
+	r.replaySite = "" // the check replays the recorded case itself
 	b, err := os.ReadFile(r.ReplayPath)
 	if err != nil {
 		HarnessError("replay: %v", err)
